@@ -244,20 +244,23 @@ def abstract_parameter(e):
 
 
 def install_dist_axioms(W, name, nargs):
-    """assumed properties of the named distribution's survival function: values in [0,1], non-increasing in age"""
+    """assumed property of the named distribution's survival function: values in [0,1] (trigger on every
+    application).  Monotonicity in age is instantiated where it is needed (`assume_monotone`)."""
     f = sf_uf(name, nargs)
-    seen = []
+    W.c.add_trigger(name, lambda age, *prm: z3.And(f(age, *prm) >= 0, f(age, *prm) <= 1))
 
-    def fact(age, *prm):
-        fs = [f(age, *prm) >= 0, f(age, *prm) <= 1]
-        for a2, p2 in seen:
-            same = z3.And(*[x == y for x, y in zip(prm, p2)]) if prm else z3.BoolVal(True)
-            fs.append(z3.Implies(z3.And(same, age <= a2), f(age, *prm) >= f(a2, *p2)))
-            fs.append(z3.Implies(z3.And(same, a2 <= age), f(a2, *p2) >= f(age, *prm)))
-        seen.append((age, prm))
-        return z3.And(*fs)
 
-    W.c.add_trigger(name, fact)
+def assume_monotone(W, M, t_hi, t_lo, c, r):
+    """assumed property of the named distribution's survival function: non-increasing in age -- instantiated for
+    the quadrature points of cohort c at the two years t_lo <= t_hi (same parameters, larger age at t_hi)"""
+    if not W.symbolic or M.dist == "Fixed":
+        return
+    prm = M.prm_at(c, r)
+    for eta in M.eta:
+        inst = eta * M.b(c + 1) + (1 - eta) * M.b(c)
+        a_hi, a_lo = M.b(t_hi + 1) - inst, M.b(t_lo + 1) - inst
+        v_hi, v_lo = dist_spec(W, M.dist, a_hi, prm), dist_spec(W, M.dist, a_lo, prm)
+        W.c.assume(z3.Implies(to_real(a_lo) <= to_real(a_hi), to_real(v_hi) <= to_real(v_lo)), why=f"{M.dist}: survival function is non-increasing in age")
 
 
 class ScipyStub:
@@ -341,7 +344,9 @@ def quad_rule(inflow_at, npts):
     if npts == 1:
         return [{"start": 0.0, "middle": 0.5, "end": 1.0}[inflow_at]], [1.0]
     nodes, weights = _read_tables()
-    return [float((x + 1) / 2) for x in nodes[npts]], [float(w / 2) for w in weights[npts]]
+    # the affine map to [0,1], evaluated in double precision like every other number of the model
+    # (an exact-rational evaluation differs from it by one rounding in the last place)
+    return [(float(x) + 1) / 2 for x in nodes[npts]], [float(w) / 2 for w in weights[npts]]
 
 
 class FakeGrid:
@@ -623,8 +628,12 @@ def u_lifetime_tables(W, sk):
     W.forall_range("sf.zero_for_later_cohorts", rngs, lambda idx: W.implies(idx[1] > idx[0], W.num_eq(sf(*idx), 0)))
     wsum = sum(M.wq)
     if W.symbolic:
-        W.forall_range("sf.in_unit_interval", rngs, lambda idx: core.sand(sf(*idx) >= 0, sf(*idx) <= wsum))
-        W.forall_range("sf.never_increases_with_age", rngs, lambda idx: W.implies(core.sand(idx[0] >= idx[1], idx[0] + 1 < n), sf(idx[0] + 1, idx[1], *idx[2:]) <= sf(idx[0], idx[1], *idx[2:])))
+        W.forall_range("sf.in_unit_interval", rngs, lambda idx: core.sand(sf(*idx) >= 0, sf(*idx) <= sum(Fr(w) for w in M.wq)))
+        mc = W.fresh_int("mono_c", 0, n)
+        mt = W.fresh_int("mono_t", mc, n - 1)
+        mr = tuple(W.fresh_int(f"mono_r{j}", 0, e) for j, e in enumerate(M.esizes))
+        assume_monotone(W, M, mt + 1, mt, mc, mr)
+        W.prove("sf.never_increases_with_age", sf(mt + 1, mc, *mr) <= sf(mt, mc, *mr), detail="sf[t+1,c] <= sf[t,c] for t >= c")
     else:
         W.forall_range("sf.in_unit_interval", rngs, lambda idx: -1e-12 <= sf(*idx) <= 1 + 1e-9)
         W.forall_range("sf.never_increases_with_age", rngs, lambda idx: (not (idx[0] >= idx[1] and idx[0] + 1 < n)) or sf(idx[0] + 1, idx[1], *idx[2:]) <= sf(idx[0], idx[1], *idx[2:]) + 1e-12)
@@ -639,7 +648,13 @@ def u_lifetime_tables(W, sk):
     pdf = lambda t, c, *r: W.elem(pa, (t, c) + tuple(r))
     W.forall_range("pdf.is_difference_of_survival", rngs, lambda idx: W.num_eq(pdf(*idx), M.pdf_spec(sf, idx[0], idx[1], idx[2:])), detail="pdf[c,c] = 1 - sf[c,c]; pdf[t,c] = sf[t-1,c] - sf[t,c] (t > c); 0 for c > t")
     if W.symbolic:
-        W.forall_range("pdf.non_negative", rngs, lambda idx: pdf(*idx) >= (0 if abs(wsum - 1) < 1e-15 else -abs(wsum - 1)))
+        pc = W.fresh_int("pn_c", 0, n)
+        pt = W.fresh_int("pn_t", 0, n)
+        pr_ = tuple(W.fresh_int(f"pn_r{j}", 0, e) for j, e in enumerate(M.esizes))
+        if bool(pt > pc):
+            assume_monotone(W, M, pt, pt - 1, pc, pr_)
+        excess = sum(Fr(w) for w in M.wq) - 1  # exact; 0 for the exact rule, at most 1e-13 for the double constants
+        W.prove("pdf.non_negative", pdf(pt, pc, *pr_) >= (-excess if excess > 0 else 0), detail="pdf >= 0 (up to the rounding excess of the weights' sum over 1)")
         c = W.fresh_int("tel_c", 0, n)
         t = W.fresh_int("tel_t", c, n)
         r = tuple(W.fresh_int(f"tel_r{j}", 0, e) for j, e in enumerate(M.esizes))
